@@ -135,7 +135,10 @@ def api_view(iso, model, pexc, read_content=True):
         for f in files:
             p = join(dirpath, f)
             rec = iso.get_record(iso_path=p)
-            if rec.is_symlink():
+            if rec.is_dir():
+                # the placeholder of a relocated directory: listed as a file, resolved to the directory
+                v[p] = ('file', bool(rec.file_flags & 1), ('reloc',))
+            elif rec.is_symlink():
                 v[p] = ('file', bool(rec.file_flags & 1), None)
             else:
                 v[p] = ('file', bool(rec.file_flags & 1), fkey({'iso_path': p}))
@@ -216,6 +219,8 @@ def compare_views(expected, observed):
             if ns in ('rr', 'udf') and ev[0] == 'symlink':
                 # a target is compared component-wise modulo redundant slashes
                 pass
+            if ns == 'iso' and ev[0] == ov[0] == 'file' and ev[2] == ('reloc',):
+                continue            # a relocation placeholder: any non-directory record will do
             if ev != ov:
                 kind = 'type' if ev[0] != ov[0] else 'attr'
                 if ev[0] == ov[0] == 'file':
